@@ -411,12 +411,13 @@ static std::string run_case(const std::string &line, const std::function<void()>
     vec_basic nodes;
     closure(e, nodes);
     bool binder_free = true;
-    // Basic::subs does not descend into Intersection / Complement (observed; a matter of C11)
+    // Basic::subs does not descend into Intersection / Complement and can crash on nested set
+    // expressions (observed; matters of C11 / C27): the renaming oracle is used on set-free trees
     bool subs_reliable = true;
     for (const auto &p : nodes) {
         if (is_binder_class(*p))
             binder_free = false;
-        if (is_a<Intersection>(*p) or is_a<Complement>(*p))
+        if (is_a_Set(*p))
             subs_reliable = false;
     }
 
@@ -519,13 +520,13 @@ static std::string run_case(const std::string &line, const std::function<void()>
                 oracle << "\t#ORACLE:" << ((h and !infs and subs_var) ? "has-symbol-subs-bound-variable" : "has-symbol-disagrees")
                        << ":has_symbol(e, " << dump39(*x, false) << ") = " << h << " but membership in free_symbols(e) = " << infs;
             }
-            if (binder_free) {
+            if (binder_free and subs_reliable) {
                 // renaming x to a fresh symbol changes the printed text iff x occurs
                 try {
                     map_basic_basic m;
                     m[x] = symbol("QQfresh39");
                     bool occurs = e->subs(m)->__str__().find("QQfresh39") != std::string::npos;
-                    if (occurs != set_has(fs, x) and subs_reliable)
+                    if (occurs != set_has(fs, x))
                         oracle << "\t#ORACLE:occurs-subs:renaming " << dump39(*x, false) << " "
                                << (occurs ? "changes" : "does not change") << " e, but membership in free_symbols(e) = "
                                << set_has(fs, x);
